@@ -309,7 +309,8 @@ def gen_values(sort_src, rng, p_hint, budget):
         # ({1, 8} -> 8, 1; {3, 9} -> 9, 3): colliders / parent sets mixing labels below and above 8, as DAG, weighted DAG and PDAG
         for (p, edges, und) in ((10, [(1, 3), (9, 3), (8, 2), (1, 2), (3, 5), (9, 5), (0, 9)], [(4, 6)]),
                                 (9, [(1, 2), (8, 2), (1, 0), (8, 0), (2, 0)], []),
-                                (12, [(3, 1), (9, 1), (10, 4), (2, 4), (11, 7), (3, 7), (8, 7)], [(5, 6), (0, 5)])):
+                                (12, [(3, 1), (9, 1), (10, 4), (2, 4), (11, 7), (3, 7), (8, 7)], [(5, 6), (0, 5)]),
+                                (9, [(1, 7)], [(1, 2), (2, 8)]), (9, [], [(7, 8)]), (10, [(0, 1)], [(1, 9), (8, 9), (5, 8)]), (11, [(4, 10)], [(8, 10), (2, 9), (3, 9)])):
             M = np.zeros((p, p), dtype=dt)
             for (a, b) in edges:
                 M[a, b] = 1
@@ -526,12 +527,29 @@ def search(ctx, q, seed=0, budget=300, max_calls=20000, stop_on_first=True):
     return {'calls': calls, 'distinct_nontrivial': nontriv, 'domain': total + len(EXTRA_CASES.get(q, []))}, witness
 
 
+def _k6_one_directed():
+    M = np.ones((6, 6)) - np.eye(6)
+    M[4, 5] = 0          # 5 -> 4 directed, every other pair undirected
+    return M
+
+
+def _dense6():
+    M = np.ones((6, 6)) - np.eye(6)
+    M[0, 1] = M[1, 0] = 0        # 0 and 1 not adjacent
+    M[2, 3] = 0                  # 3 -> 2
+    M[0, 5] = 0                  # 5 -> 0
+    return M
+
+
 EXTRA_CASES = {
     # large sparse graphs (a fast path for big p would only be reached here); contract = the exact entry-by-entry draw formula
     'sempler.generators.dag_avg_deg': [dict(p=600, k=30.0, w_min=0.5, w_max=2.0, return_ordering=False, random_state=3),
                                        dict(p=520, k=3.0, w_min=1.0, w_max=1.0, return_ordering=True, random_state=0),
                                        dict(p=64, k=63.0, w_min=-2.0, w_max=-1.0, return_ordering=True, random_state=1)],
     'sempler.generators.dag_full': [dict(p=130, w_min=0.5, w_max=2.0, return_ordering=True, random_state=2)],
+    # many undirected edges (more than 2^11 candidate orientations): the complete graph on 6 nodes with one edge directed from the
+    # higher to the lower label, and a 6-node PDAG with 12 undirected edges and a directed triangle side
+    'sempler.utils.all_dags': [dict(pdag=_k6_one_directed()), dict(pdag=_dense6())],
 }
 
 
